@@ -47,7 +47,7 @@ theorem C09_exit_code_of_signal_zero (sg : Nat) (h : sg % 128 = 0) : exitCodeOf 
   simp [h]
 
 /-- the two decodings never collide: an exit is never read as a signal death -/
-theorem C09_exit_code_nonneg_iff_exit (c : Nat) : 0 ≤ exitCodeOf (wstatExit c) := by
+theorem C09_exit_code_of_exit_nonneg (c : Nat) : 0 ≤ exitCodeOf (wstatExit c) := by
   rw [C09_exit_code_of_exit]; exact Int.natCast_nonneg _
 
 example : exitCodeOf (wstatExit 0) = 0 ∧ exitCodeOf (wstatExit 3) = 3 ∧ exitCodeOf (wstatExit 255) = 255 ∧
@@ -550,7 +550,7 @@ theorem spawnTry_succ (rec : Rec) (u n : Nat) (s : State) :
           simp
           exact ⟨rfl, rfl⟩
 
-theorem spawnAdopt_none (u wid : Nat) (s s1 : State) (h : spawnAdopt u wid s = (none, s1)) :
+theorem spawnAdopt_none_evs (u wid : Nat) (s s1 : State) (h : spawnAdopt u wid s = (none, s1)) :
     Keep s s1 ∧ evsOf s1 = evsOf s ∧ s1.ws = s.ws := by
   unfold spawnAdopt at h
   simp only at h
@@ -568,7 +568,7 @@ theorem spawnAdopt_none (u wid : Nat) (s s1 : State) (h : spawnAdopt u wid s = (
       · rfl
       · simp [List.filter_append, Obs.isEv]
 
-theorem spawnAdopt_some (u wid pid : Nat) (s s1 : State) (h : spawnAdopt u wid s = (some pid, s1)) :
+theorem spawnAdopt_some_evs (u wid pid : Nat) (s s1 : State) (h : spawnAdopt u wid s = (some pid, s1)) :
     s1.a = s.a ∧ s1.blocked = s.blocked ∧ s1.objs.map (·.pid) = s.objs.map (·.pid) ++ [pid] ∧ evsOf s1 = evsOf s ∧
     s1.ws = s.ws.map (fun w => if w.uid = u then { w with pids := w.pids ++ [pid] } else w) := by
   unfold spawnAdopt at h
@@ -648,7 +648,7 @@ theorem C09_spawn_event_exactly_one (rec : Rec) (u : Nat) : ∀ (tries : Nat) (s
         cases p with
         | none =>
           simp only at h ⊢
-          obtain ⟨hk, he, hws⟩ := spawnAdopt_none u wid s s1 hsp
+          obtain ⟨hk, he, hws⟩ := spawnAdopt_none_evs u wid s s1 hsp
           obtain ⟨pid, hS⟩ := ih s1 t (hk.blocked.trans hb) (by rw [hk.a]; exact hp) h
           refine ⟨pid, ⟨?_, ?_, ?_, ?_, ?_⟩⟩
           · rw [hS.adopted, hk.opids]
@@ -659,7 +659,7 @@ theorem C09_spawn_event_exactly_one (rec : Rec) (u : Nat) : ∀ (tries : Nat) (s
             exact ⟨pre, by rw [hpre, hk.name]⟩
         | some pid =>
           simp only at h ⊢
-          obtain ⟨ha, hbl, hobj, he, hws⟩ := spawnAdopt_some u wid pid s s1 hsp
+          obtain ⟨ha, hbl, hobj, he, hws⟩ := spawnAdopt_some_evs u wid pid s s1 hsp
           have hk2 := callHook_keep u "after_spawn" s1
           by_cases hr : (callHook u "after_spawn" s1).1 = true
           · rw [if_pos hr]
@@ -705,10 +705,10 @@ theorem C09_no_spawn_event_unless_started (fuel u : Nat) : ∀ (tries : Nat) (s 
         cases p with
         | none =>
           simp only at h ⊢
-          rw [ih s1 h q, (spawnAdopt_none u wid s s1 hsp).2.1]
+          rw [ih s1 h q, (spawnAdopt_none_evs u wid s s1 hsp).2.1]
         | some pid =>
           simp only at h ⊢
-          obtain ⟨_, _, _, he, _⟩ := spawnAdopt_some u wid pid s s1 hsp
+          obtain ⟨_, _, _, he, _⟩ := spawnAdopt_some_evs u wid pid s s1 hsp
           by_cases hr : (callHook u "after_spawn" s1).1 = true
           · rw [if_pos hr] at h
             exact absurd rfl (h _)
@@ -957,6 +957,17 @@ example : (evsOf (stopAfterKill (exec 100) 1 true .none c09S).2).map showObs =
     (getW 1 (stopAfterKill (exec 100) 1 true .none c09S).2).1.status = .stopped ∧
     (getW 1 (stopAfterKill (exec 100) 1 true .none c09S).2).1.pids = [] ∧
     (reapProcesses 1 c09S).2.blocked = false := by decide +kernel
+
+/-! observation (not a violation of the per-watcher statements above, but a subscriber must treat
+    `remove` as "forget this watcher's pids"): after `rm` with `nostop` the worker keeps running
+    unmanaged; when it dies the arbiter's `waitpid(-1)` collects it (`o reap 100 0`) and no `reap`
+    event is ever published for the announced pid 100 -/
+example : (run (initState [{ name := "w", np := 1 }] [{}] 0)
+      [.start, .wake, .wake, .wake,
+       .req "c" (some (.obj [("command", .str "rm"), ("properties", .obj [("name", .str "w"), ("nostop", .bool true)])])),
+       .die 100 0, .check, .check]).log.map showObs =
+    ["o spawn 100 119 1", "o ev 119 spawn 100 -", "o ev 119 start - -", "o nosleeper", "o ev 119 remove - -",
+     "o rep c n ok - -", "o reap 100 0"] := by decide +kernel
 
 /-! ### 6. what is not proved here
 
